@@ -305,6 +305,9 @@ class Server:
         # which is done in the get_descriptive data
         # TODO: caching, to not make this extra work
         self.secnode.get_descriptive_data('')
+        # modules which are not exported (and not attached to an exported one) are not yet initialized
+        for modname in list(self.secnode.modules):
+            self.secnode.get_module(modname)
         # =========== All modules are initialized ===========
 
         # all errors from initialization process
